@@ -76,6 +76,8 @@ def main():
     dirs = sorted(d for d in glob.glob(os.path.join(VERIF, "seeded", "C*-*")) if os.path.isfile(os.path.join(d, "patch.diff")))
     if only:
         dirs = [d for d in dirs if os.path.basename(d) in only]
+    withdrawn = {os.path.basename(d): json.load(open(os.path.join(d, "meta.json"))).get("withdrawn") for d in dirs}
+    dirs = [d for d in dirs if not withdrawn[os.path.basename(d)]]
     if "--report-only" in a:  # rewrite MATRIX.md from the outcomes stored in the meta.json files
         res = [(os.path.basename(d), json.load(open(os.path.join(d, "meta.json"))).get("matrix", {})) for d in dirs]
     else:
@@ -94,6 +96,9 @@ def main():
             continue
         cl = "; ".join(sum([v["clauses"][:3] for v in out["checks"].values() if v["caught"]], []))[:200].replace("|", "/")
         lines.append("| %s | %s | %s | %s |" % (name, summ, ", ".join(out["caught_by"]) or "**missed**", cl))
+    for name, why in sorted(withdrawn.items()):
+        if why:
+            lines.append("| %s | withdrawn: %s | - | |" % (name, why[:300].replace("|", "/")))
     open(os.path.join(VERIF, "seeded", "MATRIX.md"), "w").write("\n".join(lines) + "\n")
 
 
